@@ -28,8 +28,8 @@ CLAIMS = {
           "Coq proof of the sampling loop + bit-exact correspondence", "3/C05", True),
  "C06": C("Coq theorems over the reals, every dimension n, every h<>0 of either sign, every value of the stage derivatives: the DOPRI5, DOP853, RK4 and RK23 interpolants equal the old state at the left end and the new state at the right end of the step (RK23 via the exact rationals of the source constants), the Radau collocation polynomial ends at the new state; on a contiguous chain of segments sol(t) is evaluated for every t between the first and last covered time by a segment containing t, is OutOfRange outside and NotEnabled without dense output; the handler stores exactly the step's interpolant. Not proved: Radau left end (rounded decimal constants) and the BDF difference polynomial -- replay + oracle only." + TIE,
           "Coq proof (interpolant endpoint identities, no-gap lookup) + bit-exact correspondence + dense-output oracles", "3/C06", True),
- "C07": C("Tie only in this revision: dense coefficients are part of the bit-exact replay; the interpolant's order is measured by one-step slope fits from exact data (explicitly time-dependent problems); continuous order conditions are not yet theorems.",
-          "bit-exact correspondence + one-step slope experiment (no theorem yet: partial)", "3/C07", True),
+ "C07": C("Coq theorems for DOPRI5 (q=4), RK23 (q=3) and RK4's cubic Hermite (q=3), every dimension, h<>0 of either sign, every theta and stage values: (link, over the reals) the model's interpolant is the continuous Runge-Kutta formula y + h*sum_j b_j(theta) k_j with the weight polynomials assembled from the source constants; (order, exact rationals) those polynomials satisfy the continuous order conditions sum_j b_j(theta) Phi_j(t) = theta^|t|/gamma(t) for every rooted tree up to q, and DOPRI5's fail at order 5; the kernels produce attempts of the assumed shape. Uniform O(h^(q+1)) then follows by textbook theory (not formalised). Not proved: DOP853 (q=7), Radau, BDF -- slope experiment only." + TIE,
+          "Coq proof (continuous order conditions over Qc + real-number link to the model's interpolant) + bit-exact correspondence + one-step slope experiment", "3/C07", True),
  "C08": C("Coq theorems: a reported event is a step endpoint with its stored state or (t_e, interpolant(t_e)); events of a step are a stable sort (permutation, ordered) of the detected ones; direction filter truth table (real semantics). Brent's bracket invariant is not yet a theorem." + TIE,
           "Coq proof (handler model) + bit-exact correspondence incl. every Brent iterate", "3/C08", True),
  "C09": C("Coq theorems (real semantics): strictly opposite signs are always detected by All and by the matching one-sided filter only; equal strict signs never. Exactly-one-event for a single root is checked on grid-aware placements." + TIE,
